@@ -1,6 +1,7 @@
 """RISC-V front end: C01, C02 (C25 below)."""
 from .props import Prop, reg, has, nothas
 from . import genrv as gr
+from . import rvgen
 
 RV_TRUSTED = [
     "instruction tables regenerated from /repo on every run (runtime dump of decode facts + go/ast translation of the effects closures by translator/); helper functions of opcodes.go hand-modelled and tied by structural correspondence",
@@ -14,7 +15,7 @@ reg(Prop("C01",
          "boundary immediates (0, -1, min, max), x0/x1/x31 and equal registers in every field, addresses 0, 4, 2^31, "
          "top of the address space; lifted effects compared structurally with the regenerated model and executed on the "
          "reference machine from 8 random/boundary states; non-trivial = word accepted",
-         4000, 300000, trusted=RV_TRUSTED))
+         4000, 300000, trusted=RV_TRUSTED, pre=[rvgen.regenerate]))
 
 reg(Prop("C02",
          [("decode", gr.g_decode, 3), ("entry", gr.g_entry, 1)],
@@ -22,4 +23,13 @@ reg(Prop("C02",
          "uniformly random words, single/double bit flips of valid words, valid words, x 2 variants x 4 extension "
          "subsets, short (0-3 bytes) and long inputs with trailing bytes; accept/reject and name compared with the "
          "reference decoder; every case non-trivial",
-         4000, 400000, trusted=RV_TRUSTED))
+         4000, 400000, trusted=RV_TRUSTED, pre=[rvgen.regenerate]))
+
+reg(Prop("C25",
+         [("pair", gr.g_pair, 1)],
+         lambda c: "bothok" in c.tags and "diffeffects" in c.tags,
+         "pairs of words of one table entry at one address, differing in one field (rd, rs1, rs2/shamt, funct7 / "
+         "immediate bits) or in all free bits; identical text must imply identical lifted effects, text must start "
+         "with the mnemonic; texts compared byte for byte with the model of String(); non-trivial = both accepted "
+         "and the lifted effects differ",
+         4000, 300000, trusted=RV_TRUSTED, pre=[rvgen.regenerate]))
